@@ -67,6 +67,26 @@ class Drain(threading.Thread):
         stuck.register_harness_thread()
         if self.pacing == "delayed":
             time.sleep(self.rng.choice([0.2, 0.5]))
+        if self.pacing == "stop_and_go":
+            # the peer lets the sender run into full buffers, then makes a little room, again and again: after every pause the
+            # sender's next small send meets a send buffer that has room for a part of it only
+            self.sock.settimeout(0.05)
+            for _ in range(12):
+                time.sleep(0.25)
+                got = 0
+                while got < 100_000 and not self.stop:
+                    try:
+                        chunk = self.sock.recv(min(65536, 100_000 - got))
+                    except socket.timeout:
+                        break
+                    except OSError:
+                        return
+                    if not chunk:
+                        self.eof = True
+                        return
+                    self.data += chunk
+                    got += len(chunk)
+                    self.last_rx = time.monotonic()
         self.sock.settimeout(0.05)
         while not self.stop:
             try:
@@ -87,6 +107,8 @@ class Drain(threading.Thread):
                     time.sleep(0.002)
                 if self.pacing == "stall" and self.rng.random() < 0.05:
                     time.sleep(0.002)
+                if self.pacing == "bursty" and self.rng.random() < 0.3:
+                    time.sleep(0.004)       # the peer reads in bursts: the sender's buffer is nearly full most of the time
                 if self.pacing == "small_then_sender_disables":
                     time.sleep(0.0005)      # slow enough that most of the data is still on its way when the sender disables
                 if self.pacing == "stall" and not self.stalled and len(self.data) >= (1 << 20):
@@ -212,7 +234,7 @@ def _case(ctx, idx, active, path, sizes, pacing, rcvbuf):
                 break
             if drain.eof:
                 break
-            if time.monotonic() - drain.last_rx > 5.0 and pacing not in ("delayed", "stall"):
+            if time.monotonic() - drain.last_rx > 5.0 and pacing not in ("delayed", "stall", "stop_and_go"):
                 break
             if time.monotonic() - drain.last_rx > 12.0:
                 break
@@ -301,6 +323,10 @@ def run(ctx):
             cases.append((active, path, [256 * 1024], "small_then_sender_disables", 4096))
             cases.append((active, path, [3, 600000], "small_then_sender_disables", 0))
             if path == "send_data":
+                # thousands of small sends towards a peer that reads in bursts (each send meets a nearly full send buffer)
+                cases.append((active, path, [3000] * (1200 if ctx.quick else 4000), "bursty", 0))
+                cases.append((active, path, [3000] * 2500, "stop_and_go", 65536))
+                cases.append((active, path, [rng.choice([1, 100, 1460, 4096, 4097]) for _ in range(2000)], "bursty", 16384))
                 cases.append((active, path, [12 * MiB], "stall", 65536))     # far more than the socket buffers can take during the stall
     extra = 0 if ctx.quick else 200
     for _ in range(extra):
